@@ -69,13 +69,20 @@ StakeAmounts(a) ==
        ELSE {Min - 1, Min, Min + 500000, Avail(a), Avail(a) + 1})
     \cap (1..2000000000)
 GoodAmount(a) == IF IsStaked(a) THEN s.app[a].tokens ELSE Min
-\* chain lists: none, one, another one, the maximum (2), one too many, a malformed id
-ChainLists == {<<>>, <<"0001">>, <<"0002">>, <<"0001", "0002">>, <<"0001", "0002", "0003">>, <<"zz">>}
+\* chain lists: none, one, another one, the maximum (2), one too many, a malformed id, a duplicated id
+ChainLists == {<<>>, <<"0001">>, <<"0002">>, <<"0001", "0002">>, <<"0001", "0002", "0003">>, <<"zz">>, <<"0001", "0001">>}
+TooMany == <<"0001", "0002", "0003">>
+\* the admission limits on the EDIT path, combined with a stake bump (pairwise mode; Rich has the full product)
+BumpChainReqs(a) == IF IsStaked(a)
+                      THEN {<<s.app[a].tokens + 1000000, ch>> : ch \in {TooMany, <<"0001", "0001">>, <<"zz">>, <<>>}}
+                           \cup {<<s.app[a].tokens + Avail(a) + 1, TooMany>>}
+                      ELSE {}
 
 StakeReqs(a) ==
     IF Rich THEN (StakeAmounts(a) \cup {0}) \X ChainLists
     ELSE ({<<amt, <<"0001">>>> : amt \in StakeAmounts(a)}
           \cup {<<GoodAmount(a), ch>> : ch \in ChainLists}
+          \cup BumpChainReqs(a)
           \cup {<<0, <<>>>>, <<0, <<"0001">>>>})
 EditReqs(a) == {r \in StakeReqs(a) : IsStaked(a)}
 
@@ -97,6 +104,7 @@ Block(tx, dt, hasTx) ==
        /\ hist' = Append(hist, [v |-> v, dt |-> dt, t |-> t1, hasTx |-> hasTx, tx |-> tx,
                                 ante |-> IF hasTx THEN AppsAnteClass(sb, C, tx, h) ELSE "none",
                                 cls |-> IF hasTx THEN AppsClass(sb, C, tx, h) ELSE "tick",
+                                why |-> IF hasTx THEN AppsWhy(sb, C, tx, h) ELSE "",
                                 ok |-> ok, begun |-> AppsFocus(sb), st |-> AppsFocus(dl), end |-> AppsFocus(en)])
 
 Id == n + 1
@@ -134,6 +142,7 @@ ASSUME \A i \in Variants : RelaysExact(Inits[i].cfg)
 C20_Design      == Inv_C20(s, donated)
 AppIndex_Design == Inv_AppIndex(s)
 C28_Relays      == Inv_C28_Relays(s, C)
+C28_Chains      == Inv_C28_Chains(s, C)
 C24_NoOverdue   == Inv_C24_NoOverdue(s, t)
 SupplyOK        == Inv_C17_SupplyIsSumOfBalances(s)
 
@@ -143,7 +152,8 @@ Authd(e) == e.hasTx /\ e.ante = "ok"
 C28_Design ==
     [][LET e == E IN Authd(e) =>
          /\ Step_C28_New(e.begun, C, e.tx, e.st, e.ok)
-         /\ Step_C28_Transfer(e.begun, C, e.tx, e.st, e.ok)]_vars
+         /\ Step_C28_Transfer(e.begun, C, e.tx, e.st, e.ok)
+         /\ Step_C28_Edit(e.begun, C, e.tx, e.st, e.ok)]_vars
 C23_Design == [][LET e == E IN Authd(e) => Step_C23_App(e.begun, C, e.tx, e.st, e.ok)]_vars
 C24_Design ==
     [][LET e == E IN
